@@ -76,6 +76,9 @@ fn int_ty(name: &str) -> Option<LT> {
     })
 }
 
+/// `&mut self` methods of the compiler that only append to the chunk being written (checked against their bodies on every run).
+const FOOTPRINT_CHUNK_ONLY: &[&str] = &["emit_byte", "emit_bytes"];
+
 /// Plain-data structs (every field a modelled value) that are carried as Lean tuples.
 const RECORDS: &[&str] = &["Local", "Upvalue"];
 
@@ -168,6 +171,8 @@ struct Cx<'a> {
     accessors: BTreeSet<String>,
     loop_fuel: bool,
     loop_depth: usize,
+    /// innermost-last: the continuation of the enclosing `for` body and the Boolean that records a `break`
+    for_konts: Vec<(Kont, String)>,
     epoch: usize,
     struct_params: BTreeMap<String, Ty>,
     /// translating a method of `Vm` over the abstract interpreter state `vm_ : Rs.Vm`
@@ -413,6 +418,38 @@ impl<'a> Cx<'a> {
         self.places.clear();
     }
 
+    /// After an untranslated `&mut self` call whose body was checked (syntactically, on this run) to touch nothing but the chunk
+    /// being written: only the places under the chunk are forgotten.
+    fn invalidate_places_after(&mut self, callee: &str) {
+        let method = callee.rsplit('.').next().unwrap_or("");
+        if FOOTPRINT_CHUNK_ONLY.contains(&method) && self.body_mentions_only_chunk(method) {
+            self.epoch += 1;
+            self.places.retain(|p, _| !p.contains("chunk"));
+            return;
+        }
+        self.invalidate_places();
+    }
+
+    fn body_mentions_only_chunk(&self, method: &str) -> bool {
+        let st = match &self.self_ty {
+            Some(s) => s.clone(),
+            None => return false,
+        };
+        for im in &self.db.impls {
+            if im.self_ty.head() == Some(st.as_str()) {
+                for f in &im.fns {
+                    if f.sig.ident == method {
+                        let text = compact(&toks(&f.block));
+                        // nothing of the compiler's own state may be named; the only callee allowed is the chunk writer
+                        let banned = ["locals", "upvalues", "scope_depth", "loop_stack", "break_stack", "compilers", "in_try_block", "lambda_count"];
+                        return !banned.iter().any(|b| text.contains(b)) && text.contains("chunk");
+                    }
+                }
+            }
+        }
+        false
+    }
+
     /// The syntactic place an expression denotes (`self.a.b`, through aliases, borrows and derefs), if any.
     fn path_of(&self, e: &Expr) -> Option<String> {
         match e {
@@ -445,7 +482,7 @@ impl<'a> Cx<'a> {
                 match name.as_str() {
                     "borrow" | "borrow_mut" | "as_ref" | "as_mut" | "get" | "as_gc" | "iter" => Some(base),
                     "len" | "is_none" | "is_some" | "is_empty" | "to_ne_bytes" | "trunc" | "unwrap" | "clone" | "enumerate" | "rev" => None,
-                    _ => Some(format!("{}.{}()", base, name)),
+                    _ => Some(format!("{}.{}()", base, name.strip_suffix("_mut").unwrap_or(&name))),
                 }
             }
             _ => None,
